@@ -149,6 +149,46 @@ def _exprability(s):
     return "maybe"
 
 
+def compile_raises(s):
+    """Independent of pyflyby: CPython's compile() gives up on the text with something other than SyntaxError
+    (UnicodeEncodeError for lone surrogates, RecursionError / MemoryError for very long or deep text, ...)."""
+    src = textwrap.dedent(s)
+    if not src.endswith("\n"):
+        src += "\n"
+    with warnings.catch_warnings():
+        warnings.simplefilter("ignore")
+        try:
+            compile(src, "<c15>", "exec", ast.PyCF_ONLY_AST, dont_inherit=True)
+        except SyntaxError:
+            return False
+        except Exception:
+            return True
+    return False
+
+
+def _enc_str(s):
+    # lone surrogates cannot cross the JSON boundary into Lean (Char has no surrogates): U+D800..DFFF <-> U+FD800..FDFFF
+    if not any(0xD800 <= ord(c) <= 0xDFFF for c in s):
+        return s
+    return "".join(chr(ord(c) + 0xF0000) if 0xD800 <= ord(c) <= 0xDFFF else c for c in s)
+
+
+def _dec_str(s):
+    if not any(0xFD800 <= ord(c) <= 0xFDFFF for c in s):
+        return s
+    return "".join(chr(ord(c) - 0xF0000) if 0xFD800 <= ord(c) <= 0xFDFFF else c for c in s)
+
+
+def _map_obj(o, f):
+    if isinstance(o, str):
+        return f(o)
+    if isinstance(o, list):
+        return [_map_obj(x, f) for x in o]
+    if isinstance(o, dict):
+        return {k: _map_obj(v, f) for k, v in o.items()}
+    return o
+
+
 def py_is_identifier(s):
     return s.isidentifier() and not keyword.iskeyword(s)
 
@@ -194,6 +234,7 @@ class C15(Prop):
         "C15_D16_witness", "witness_call_binds", "witness_rejected", "witness_fixed",
         "C15_global_opts_suffix", "C15_safe_sets_string",
         "scan_items", "resolve_agree", "dget_dictOf", "evalExpr_user", "evalExpr_auto_raw_reason",
+        "evalExpr_auto_compile_raises", "evalExpr_auto_unparsable",
     ]]
     anchors = [
         ("lib/python/pyflyby/_py.py", "_parse_auto_apply_args"),
@@ -205,21 +246,29 @@ class C15(Prop):
         ("lib/python/pyflyby/_py.py", "_get_argspec"),
         ("lib/python/pyflyby/_util.py", "prefixes"),
         ("lib/python/pyflyby/_idents.py", "is_identifier"),
+        ("lib/python/pyflyby/_parse.py", "PythonBlock._ast_node_or_parse_exception"),
+        ("lib/python/pyflyby/_parse.py", "PythonBlock.parsable_as_expression"),
+        ("lib/python/pyflyby/_parse.py", "PythonBlock.expression_ast_node"),
+        ("lib/python/pyflyby/_parse.py", "_parse_ast_nodes"),
     ]
     quick_cases = 10000
-    thorough_cases = 300000
+    thorough_cases = 250000
     quick_deadline_s = 60
     thorough_deadline_s = 600
     rule = ("generated signatures (positional, defaults, *args, keyword-only, **kwargs, names sharing prefixes, non-ASCII "
             "names) built as real Python functions x command lines (structured: positionals, --k=v, --k v, -k v, -k=v, "
             "`-`, trailing `-- ...`; 'wild' structured; unstructured token soup) x {string, eval, auto} x argument strings "
-            "(expression-like, shell-like, empty, blank, leading dashes, control characters) against "
+            "(expression-like, shell-like, empty, blank, leading dashes, control characters; a hostile alphabet: lone "
+            "surrogates = undecodable argv bytes, NUL, BOM, FF/VT/U+2028 inside quoted strings, 10k-character tokens, "
+            "199/250-deep brackets, 5000-9000-fold unary/binary chains on which compile() raises RecursionError / "
+            "MemoryError / UnicodeEncodeError — each in every argument position) against "
             "_parse_auto_apply_args with a tagging stub namespace; plus CPython-binder cases (inspect.Signature.bind vs "
             "pyBind), _parse_global_opts cases, an exhaustive small scope (9 signatures x argv<=3 over 12 tokens) and "
-            "real `py` subprocesses; non-trivial = non-empty argv / call / option list, distinct by full input")
+            "real `py` subprocesses (string mode, and automatic mode with raw bytes in argv); non-trivial = non-empty argv / call / option list, distinct by full input")
     trusted_base = ["CPython: inspect.Signature.bind as the definition of 'binds as the equivalent Python call' "
                     "(pyBind is validated against it by the 'bind' cases), str.isidentifier/keyword for non-ASCII names, "
-                    "the parser behind PythonBlock.parsable_as_expression (a parameter of the model: Env.parsable)",
+                    "the parser behind PythonBlock.parsable_as_expression (parameters of the model: Env.parsable, and "
+                    "Env.compileRaises = compile() gave up with a non-SyntaxError, computed by the harness from CPython alone)",
                     "modelled as parameters, universally quantified in the theorems: namespace.auto_eval (Env.outcome), "
                     "is_identifier (Env.isIdent); str.lower modelled on ASCII letters only (global options)"]
     assumptions = ["signatures as inspect.getfullargspec reports them: distinct parameter names, kwonlydefaults within "
@@ -261,10 +310,64 @@ class C15(Prop):
 
     def exhaustive_cases(self, tier, rng):
         out = G.small_scope(tier, rng)
+        out.extend(G.hostile_scope(tier, rng))
         n_sub = 200 if tier == "thorough" else 6
         for _ in range(n_sub):
             out.append(self._gen_subproc(rng))
+        for i in range(120 if tier == "thorough" else 8):
+            out.append(self._gen_subproc_auto(rng, i))
         return out
+
+    # strings handed to a real `py` in automatic mode: raw bytes in argv (undecodable bytes included), long / deep
+    # text, control characters; a few harmless evaluable ones as neighbours (NUL cannot be in an argv)
+    HARMLESS_EVALUABLE = ["2+3", "None", "'q'", "[1, 2]"]
+    _auto_pool = None
+
+    @classmethod
+    def subproc_auto_pool(cls):
+        """Strings whose fate in automatic mode does not depend on the evaluator: evaluation is impossible (not an
+        expression by either reading, or compile() gives up) — plus a few harmless evaluable neighbours.  Lone
+        surrogates must be expressible as argv bytes (U+DC80..DCFF, PEP 383); the string is what the child decodes."""
+        if cls._auto_pool is None:
+            pool = []
+            for s in G.HOSTILE + ["a b", "$HOME", "hello world", "1 2", "(1,", "x;y", "caf\udce9 latt\udce9.txt"]:
+                if "\x00" in s or len(s) > 20000:
+                    continue
+                try:
+                    s2 = s.encode("utf-8", "surrogateescape").decode("utf-8", "surrogateescape")
+                except UnicodeError:
+                    continue
+                if is_blank(s2) or compile_raises(s2) or exprability(s2) == "no":
+                    pool.append(s2)
+            cls._auto_pool = pool + cls.HARMLESS_EVALUABLE
+        return cls._auto_pool
+
+    def _gen_subproc_auto(self, rng, i):
+        pool = self.subproc_auto_pool()
+        items = []
+        # the first cases walk through the undecodable-byte strings one by one
+        first = pool[i % len(pool)] if i < 2 * len(pool) else rng.choice(pool)
+        def plain(x):
+            return not x.startswith("-") and x not in G.HELP_TOKENS
+        for j in range(rng.choice([1, 2, 2, 3, 4])):
+            v = first if j == 0 else rng.choice(pool)
+            r = rng.random()
+            if r < 0.5 and plain(v):
+                items.append(["pos", v])
+            elif r < 0.75 and v != "":
+                items.append(["opt", rng.choice(["--k=v", "-k=v"]), rng.choice(["path", "name", "zz", "x"]), v])
+            elif not v.startswith("--"):
+                items.append(["opt", rng.choice(["--k v", "-k v"]), rng.choice(["path", "name", "zz", "x"]), v])
+            elif plain(v):
+                items.append(["pos", v])
+        rng.shuffle(items)
+        if rng.random() < 0.25:
+            items.append(["dd", [rng.choice(pool) for _ in range(rng.randint(1, 2))]])
+        gopts = rng.choice([[], [], ["-q"], ["--args=auto"], ["--args", "a"]])
+        via = rng.choice(["heuristic", "apply", "apply"])
+        sig = dict(args=[], ndefaults=0, varargs="rest", kwonly=[], kwdefaults=[], varkw="kw")
+        return dict(kind="subproc_auto", sig=sig, mode="auto", gopts=gopts, via=via, items=items, argv=G.render(items),
+                    stdin="")
 
     def _gen_bind(self, rng):
         sig = G.gen_sig(rng)
@@ -395,7 +498,7 @@ class C15(Prop):
             return self._run_bind(case)
         if kind == "gopts":
             return self._run_gopts(case)
-        if kind == "subproc":
+        if kind in ("subproc", "subproc_auto"):
             return self._run_subproc(case)
         raise ValueError("unknown case kind %r" % (kind,))
 
@@ -455,13 +558,15 @@ class C15(Prop):
             with open(os.path.join(d, "c15m.py"), "w", encoding="utf-8") as fh:
                 fh.write(SUBPROC_PRELUDE + body)
             cmd = [sys.executable, os.path.join(REPO, "bin", "py")] + list(case["gopts"])
-            cmd += (["--apply", "c15m.f"] if case["via"] == "apply" else ["c15m.f"]) + list(case["argv"])
+            cmd += (["--apply", "c15m.f"] if case["via"] == "apply" else ["c15m.f"])
+            # raw bytes in argv: a lone surrogate U+DCxx stands for the undecodable byte 0xxx (PEP 383)
+            cmd = [os.fsencode(c) for c in cmd] + [a.encode("utf-8", "surrogateescape") for a in case["argv"]]
             env = dict(os.environ)
             env.update(PYTHONPATH=d + os.pathsep + os.path.join(REPO, "lib", "python"), LC_ALL="C.UTF-8",
                        PYTHONIOENCODING="utf-8", HOME=d, PYFLYBY_LOG_LEVEL="INFO")
             env.pop("PYFLYBY_PATH", None)
             p = subprocess.run(cmd, input=case.get("stdin", ""), stdout=subprocess.PIPE, stderr=subprocess.PIPE,
-                               text=True, env=env, cwd=d, timeout=120)
+                               encoding="utf-8", errors="replace", env=env, cwd=d, timeout=120)
         finally:
             shutil.rmtree(d, ignore_errors=True)
         obs = dict(rc=p.returncode, log=[])
@@ -543,6 +648,7 @@ class C15(Prop):
                 except Exception:
                     pass
             obs["parsable"] = par
+            obs["compile_raises"] = [s for s in sorted(set(self._candidate_strings(case))) if compile_raises(s)]
         return obs
 
     # -- oracle --------------------------------------------------------------
@@ -550,9 +656,50 @@ class C15(Prop):
         kind = case.get("kind", "parse")
         if kind in ("parse", "subproc"):
             return self._oracle_parse(case, obs)
+        if kind == "subproc_auto":
+            return self._oracle_subproc_auto(case, obs)
         if kind == "gopts":
             return self._oracle_gopts(case, obs)
         return []
+
+    def _oracle_subproc_auto(self, case, obs):
+        """Real `py` in automatic mode calling f(*rest, **kw): an argument that cannot be evaluated (not an expression
+        by either reading, or compile() gives up on it) must arrive as the original string; the harmless evaluable
+        neighbours may arrive as anything."""
+        brief = dict(argv=case["argv"], gopts=case["gopts"], via=case["via"], mode="auto")
+        pos, kw = [], {}
+        for it in case["items"]:
+            if it[0] == "pos":
+                pos.append((it[1], False))
+            elif it[0] == "dd":
+                pos.extend((x, True) for x in it[1])
+            elif it[0] == "opt":
+                kw[it[2]] = (it[3], False)
+        if "ok" not in obs:
+            return [dict(what="valid command line rejected", err=obs.get("err"), msg=(obs.get("msg") or "")[-300:],
+                         **brief)]
+        fails = []
+        got_pos = obs["call"].get("*", [])
+        got_kw = dict((k, v) for k, v in obs["call"].get("**", []))
+
+        def check(where, s, literal, got):
+            impossible = literal or is_blank(s) or compile_raises(s) or exprability(s) == "no"
+            if got is None:
+                fails.append(dict(what="argument did not arrive", where=where, want=s[:200], **brief))
+            elif impossible and got != ["raw", s]:
+                fails.append(dict(what="argument that cannot be evaluated did not arrive as the original string",
+                                  where=where, got=[got[0], got[1][:200]], want=s[:200], **brief))
+        if len(got_pos) != len(pos):
+            fails.append(dict(what="number of positional arguments differs", got=len(got_pos), want=len(pos), **brief))
+        else:
+            for i, ((s, lit), g) in enumerate(zip(pos, got_pos)):
+                check("positional %d" % i, s, lit, g)
+        if sorted(got_kw) != sorted(kw):
+            fails.append(dict(what="keyword arguments differ", got=sorted(got_kw), want=sorted(kw), **brief))
+        else:
+            for k, (s, lit) in kw.items():
+                check("--" + k, s, lit, got_kw.get(k))
+        return fails[:3]
 
     def _oracle_gopts(self, case, obs):
         if obs.get("err", "").startswith("exc:"):
@@ -827,20 +974,21 @@ class C15(Prop):
                         n = body.partition("=")[0].replace("-", "_")
                         if not n.isascii() and py_is_identifier(n):
                             idents.add(n)
-            return [dict(op="parse", spec=self._spec_json(case["sig"]), argv=case["argv"], stdin=case.get("stdin", ""),
-                         mode=case["mode"], idents=sorted(idents), parsable=obs.get("parsable", []),
-                         unimportable=case.get("unimportable", []), evalerr=case.get("evalerr", []),
-                         exactFirst=self.d16_fixed())]
+            return [_map_obj(dict(op="parse", spec=self._spec_json(case["sig"]), argv=case["argv"],
+                                  stdin=case.get("stdin", ""), mode=case["mode"], idents=sorted(idents),
+                                  parsable=obs.get("parsable", []), compileRaises=obs.get("compile_raises", []),
+                                  unimportable=case.get("unimportable", []), evalerr=case.get("evalerr", []),
+                                  exactFirst=self.d16_fixed()), _enc_str)]
         if kind == "bind":
             return [dict(op="bind", spec=self._spec_json(case["sig"]), pos=["p%d" % i for i in range(case["npos"])],
                          kw=case["kw"])]
         if kind == "gopts":
-            return [dict(op="gopts", argv=case["argv"])]
+            return [dict(op="gopts", argv=[_enc_str(a) for a in case["argv"]])]
         return []
 
     def compare(self, case, obs, resps):
         kind = case.get("kind", "parse")
-        r = resps[0]
+        r = _map_obj(resps[0], _dec_str)
         if kind in ("parse", "subproc"):
             if "err" in obs:
                 me = r.get("err")
@@ -880,7 +1028,7 @@ class C15(Prop):
     # -- bookkeeping ---------------------------------------------------------
     def nontrivial_key(self, case, obs):
         kind = case.get("kind", "parse")
-        if kind in ("parse", "subproc") and len(case["argv"]) >= 1:
+        if kind in ("parse", "subproc", "subproc_auto") and len(case["argv"]) >= 1:
             return json.dumps([kind, case["sig"], case["argv"], case["mode"]], sort_keys=True)
         if kind == "bind" and (case["npos"] or case["kw"]):
             return json.dumps([kind, case["sig"], case["npos"], case["kw"]], sort_keys=True)
@@ -897,13 +1045,21 @@ class C15(Prop):
             acc[k] = acc.get(k, 0) + 1
         inc("cases_from_" + case.get("_src", "?"))
         inc("kind_" + case.get("kind", "parse"))
-        if case.get("kind", "parse") not in ("parse", "subproc"):
+        if case.get("kind", "parse") not in ("parse", "subproc", "subproc_auto"):
             inc(case["kind"] + "_" + ("ok" if "ok" in obs else "err"))
             return
         inc("mode_" + case["mode"])
         inc("result_" + ("ok" if "ok" in obs else obs.get("err", "?")))
         inc("argv_len_%s" % (min(len(case["argv"]), 6),))
         inc("cmdline_" + ("structured" if case.get("items") is not None else "soup"))
+        if obs.get("compile_raises"):
+            inc("argv_compile_gives_up")
+        if any(0xD800 <= ord(c) <= 0xDFFF for a in case["argv"] for c in a):
+            inc("argv_lone_surrogate")
+        if any(len(a) >= 5000 for a in case["argv"]):
+            inc("argv_token_5k_chars")
+        if any(ord(c) < 32 and c not in "\t\n" for a in case["argv"] for c in a):
+            inc("argv_control_char")
         sig = case["sig"]
         for k, c in (("sig_varargs", sig["varargs"]), ("sig_varkw", sig["varkw"]), ("sig_kwonly", sig["kwonly"]),
                      ("sig_defaults", sig["ndefaults"]),
